@@ -179,8 +179,65 @@ pub fn run_c19(ctx: &Ctx) -> Report {
                 o => coll.push(1000 + i as u64, Violation { sub: "c19.non_string", class: "a non-string serde_json::Value is not rejected with an error".into(), case: Case::Text(format!("json:{}", v)), expected: "Err".into(), observed: show(&o) }),
             }
         }
+        // serde's own data model, kind by kind (serde::de::value deserializers): every
+        // non-string kind must be rejected, also when its payload spells a valid identifier
+        // (bytes b"en-US", a sequence of the characters, a map keyed by the identifier ...);
+        // the three string kinds must agree with FromStr
+        let kinds_cell = std::cell::Cell::new(0u64);
+        {
+            use serde::de::value::*;
+            use serde::de::IntoDeserializer;
+            use serde::Deserialize;
+            type E = serde::de::value::Error;
+            let nonstr = |name: &str, r: Out<LanguageIdentifier>| {
+                kinds_cell.set(kinds_cell.get() + 1);
+                match r {
+                    Out::Err(_) => {}
+                    o => coll.push(2000 + kinds_cell.get(), Violation { sub: "c19.non_string", class: format!("a non-string serde value ({}) is not rejected with an error", name), case: Case::Text(format!("serde:{}", name)), expected: "Err".into(), observed: show(&o) }),
+                }
+            };
+            nonstr("bool", guard(|| LanguageIdentifier::deserialize(BoolDeserializer::<E>::new(true))));
+            nonstr("i8", guard(|| LanguageIdentifier::deserialize(I8Deserializer::<E>::new(1))));
+            nonstr("i16", guard(|| LanguageIdentifier::deserialize(I16Deserializer::<E>::new(1))));
+            nonstr("i32", guard(|| LanguageIdentifier::deserialize(I32Deserializer::<E>::new(1))));
+            nonstr("i64", guard(|| LanguageIdentifier::deserialize(I64Deserializer::<E>::new(-1))));
+            nonstr("i128", guard(|| LanguageIdentifier::deserialize(I128Deserializer::<E>::new(1))));
+            nonstr("u8", guard(|| LanguageIdentifier::deserialize(U8Deserializer::<E>::new(b'e'))));
+            nonstr("u16", guard(|| LanguageIdentifier::deserialize(U16Deserializer::<E>::new(1))));
+            nonstr("u32", guard(|| LanguageIdentifier::deserialize(U32Deserializer::<E>::new(0x6e65))));
+            nonstr("u64", guard(|| LanguageIdentifier::deserialize(U64Deserializer::<E>::new(0x6e65))));
+            nonstr("u128", guard(|| LanguageIdentifier::deserialize(U128Deserializer::<E>::new(1))));
+            nonstr("f32", guard(|| LanguageIdentifier::deserialize(F32Deserializer::<E>::new(1.5))));
+            nonstr("f64", guard(|| LanguageIdentifier::deserialize(F64Deserializer::<E>::new(1.5))));
+            nonstr("unit", guard(|| LanguageIdentifier::deserialize(UnitDeserializer::<E>::new())));
+            for text in ["en-US", "en", "und", "", "en-US\0"] {
+                nonstr(&format!("bytes {:?}", text), guard(|| LanguageIdentifier::deserialize(BytesDeserializer::<E>::new(text.as_bytes()))));
+                nonstr(&format!("borrowed bytes {:?}", text), guard(|| LanguageIdentifier::deserialize(BorrowedBytesDeserializer::<E>::new(text.as_bytes()))));
+                nonstr(&format!("seq of chars {:?}", text), guard(|| LanguageIdentifier::deserialize(SeqDeserializer::<_, E>::new(text.chars()))));
+                nonstr(&format!("seq of one string {:?}", text), guard(|| LanguageIdentifier::deserialize(SeqDeserializer::<_, E>::new(std::iter::once(text)))));
+                nonstr(&format!("map keyed by {:?}", text), guard(|| LanguageIdentifier::deserialize(MapDeserializer::<_, E>::new(std::iter::once((text, text))))));
+                nonstr(&format!("option/some via Vec<u8> {:?}", text), guard(|| { let d: SeqDeserializer<std::vec::IntoIter<u8>, E> = text.as_bytes().to_vec().into_deserializer(); LanguageIdentifier::deserialize(d) }));
+                // the string kinds agree with FromStr
+                let want = guard(|| LanguageIdentifier::from_str(text));
+                for (kind, got) in [
+                    ("str", guard(|| LanguageIdentifier::deserialize(StrDeserializer::<E>::new(text)))),
+                    ("borrowed str", guard(|| LanguageIdentifier::deserialize(BorrowedStrDeserializer::<E>::new(text)))),
+                    ("String", guard(|| LanguageIdentifier::deserialize(StringDeserializer::<E>::new(text.to_string())))),
+                    ("Cow str", guard(|| LanguageIdentifier::deserialize(CowStrDeserializer::<E>::new(std::borrow::Cow::Borrowed(text))))),
+                ] {
+                    kinds_cell.set(kinds_cell.get() + 1);
+                    if got.kind() != want.kind() || got.ok() != want.ok() {
+                        coll.push(3000 + kinds_cell.get(), Violation { sub: "c19.deserialize", class: format!("a serde {} value differs from FromStr", kind), case: Case::Text(format!("serde:{}:{}", kind, text)), expected: show(&want), observed: show(&got) });
+                    }
+                }
+            }
+            // a single char: visit_char forwards to visit_str by default; one character never parses
+            nonstr("char", guard(|| LanguageIdentifier::deserialize(CharDeserializer::<E>::new('e'))));
+        }
+        let kinds = kinds_cell.get();
+        rep.extra.insert("serde_data_model_kinds_checked".into(), json!(kinds));
         let _ = l;
-        let n = (docs.len() + vals.len()) as u64;
+        let n = (docs.len() + vals.len()) as u64 + kinds;
         rep.states += n;
         rep.transitions += n;
         rep.traces += n;
